@@ -32,6 +32,8 @@ func gen(stream, tier string, seed uint64) {
 		genOrder(tier, seed)
 	case "autogen":
 		genAutogen(tier, seed)
+	case "race":
+		genRace(tier, seed)
 	case "untrusted":
 		genUntrusted(tier, seed)
 	case "hist":
